@@ -113,6 +113,7 @@ def run(ctx):
             row = "".join("-" * gp + ch for ch in s) + "-" * (gp * (L - len(s)) + (L - len(s)))
             gapped.append((n, row))
         pres.append(("gapped x%d" % gp, gen.fasta_text(gapped)))
+        gapped_split = gapped
         sh = list(recs)
         rng.shuffle(sh)
         sh = [("q%d" % k, s) for k, (n, s) in enumerate(sh)]
@@ -131,6 +132,16 @@ def run(ctx):
                 c = Case(recs, t, fmt="msf", intext=txt, tag="%s type=%d" % (tag, t))
                 c.exp = exp
                 cases.append(c)
+        if len(gapped_split) >= 2:
+            # the heavily gapped presentation given as two (or three) input files that are merged: the class of the merged set is still decided by
+            # the residues alone
+            k_ = rng.randint(1, len(gapped_split) - 1)
+            parts_ = [gapped_split[:k_], gapped_split[k_:]]
+            if len(parts_[1]) >= 2 and rng.random() < 0.4:
+                parts_ = [parts_[0], parts_[1][:1], parts_[1][1:]]
+            c = Case(recs, 5, fmt="msf", infiles=[gen.fasta_text(p_) for p_ in parts_], tag="gapped x%d in %d files type=5" % (gp, len(parts_)))
+            c.exp = exp
+            cases.append(c)
     # large inputs whose composition is very uneven along the file (the decision must see every residue of every sequence, in any order):
     # detection only, through kalign_read_input (op h_read prints the class)
     sc_ = C.scratch()
